@@ -9,7 +9,7 @@ from ..cases import Interp, Lin, Obj, Oracle, RankOracle, Sym, Undecided, weak_o
 from ..cfg import CFG, EXIT
 from ..core import Ctx
 from ..model import AnalysisError, FuncInfo, canon, dotted, kwarg, norm, walk_no_nested
-from .common import assigned_value, enclosing, prog, resolve_local
+from .common import assigned_value, else_part, enclosing, prog, resolve_local
 
 TERMS = {"S": Lin.atom("S"), "E": Lin.atom("E"),
          "L": Lin.atom("pivot") - Lin.atom("dist"), "H": Lin.atom("pivot") + Lin.atom("dist")}
@@ -306,7 +306,7 @@ def rule_sample(ctx: Ctx):
     for i in [n for n in walk_no_nested(g.node) if isinstance(n, ast.If)]:
         if norm(i.test) == f"{gs}._pivot_type == 'int_pivot'":
             rb = [s for s in i.body if isinstance(s, ast.Return)]
-            ro = [s for s in i.orelse if isinstance(s, ast.Return)]
+            ro = [s for s in else_part(g.node, i) if isinstance(s, ast.Return)]
             chosen = [norm(x.targets[0]) for x in walk_no_nested(g.node) if isinstance(x, ast.Assign) and isinstance(x.value, ast.Call)
                       and norm(x.value.func) in ("np.random.choice", "numpy.random.choice")]
             sv_ = chosen[0] if chosen else "?"
